@@ -17,6 +17,20 @@ def check_case(jp, text, q, doc, rec, via):
     if via == "find":
         o = mon.observe(jp.find, text, doc)
         got = mon.sig(o[1]) if o[0] == "ok" else None
+    elif isinstance(via, tuple) and via[0] == "reuse":
+        # one compiled query: an abandoned evaluation on another document first, then the evaluation that is checked
+        def run():
+            c = jp.compile(text)
+            try:
+                c.find_one(via[1])
+                it = iter(c.finditer(via[1]))
+                next(it, None)
+                del it
+            except Exception:  # noqa: BLE001
+                pass
+            return list(c.finditer(doc))
+        o = mon.observe(run)
+        got = mon.sig(o[1]) if o[0] == "ok" else None
     else:
         o = mon.observe(lambda: list(jp.compile(text).finditer(doc)))
         got = mon.sig(o[1]) if o[0] == "ok" else None
@@ -49,7 +63,7 @@ def report(jp, rec, key, text, q, doc, via):
         text2 = G.render(q2, random.Random(0), canonical=True)
         doc2 = shrink.shrink_doc(doc2, lambda d: check_case(jp, text2, q2, d, _Null(), via)[0] == key)
     k, want, got = check_case(jp, text2, q2, doc2, _Null(), via)
-    rec.violation(key, {"query": text2, "ast": jsonable(q2), "document": jsonable(doc2), "via": via,
+    rec.violation(key, {"query": text2, "ast": jsonable(q2), "document": jsonable(doc2), "via": via if isinstance(via, str) else ["reuse", jsonable(via[1])],
                         "expected_locations": mon.locs_only(want), "observed": mon.locs_only(got) if isinstance(got, list) else got,
                         "original_query": text})
 
@@ -62,7 +76,10 @@ class _Null:
 def replay(case, rec):
     import jsonpath_rfc9535 as jp
     q = _tuplify(case["ast"])
-    key, want, got = check_case(jp, case["query"], q, case["document"], rec, case.get("via", "find"))
+    via = case.get("via", "find")
+    if isinstance(via, list):
+        via = ("reuse", via[1])
+    key, want, got = check_case(jp, case["query"], q, case["document"], rec, via)
     rec.case(case["query"], True)
     rec.case(case["query"] + "#", True)
     if key:
